@@ -124,12 +124,12 @@ PROPS["C12"] = dict(
 PROPS["C15"] = dict(
     level="proof",
     technique="Lean 4 theorems: byte-level model of parse_signed_to_piconero / from_str_in / fmt_piconero_in (denomination tables generated from source) proved equal to an exact-decimal spec for every byte string and denomination; round-trip theorems; grammar-directed + junk differential check",
-    level_text="C15_parse_iff: for every byte string, denomination and signedness the model parser returns r iff the exact-decimal spec does (grammar -?D*(.D*)?, at most `decimals` fraction digits, <= 50 bytes, |r| <= 2^63-1, unsigned refuses '-'); C15_never_wraps / C15_overflow_iff: no intermediate wrap; C15_fmt_exact: exact expansion with the fixed number of decimals incl. i64::MIN; C15_parse_fmt(_suffix): parse(format a) = a with and without suffix; C15_precision_table ties everything to the regenerated precision table. Real code vs model vs spec on ~330k (quick) operations.",
+    level_text="C15_parse_iff: for every byte string, denomination and signedness the model parser returns r iff the exact-decimal spec does (grammar -?D*(.D*)?, at most `decimals` fraction digits, <= 50 bytes, |r| <= 2^63-1, unsigned refuses '-'); C15_never_wraps / C15_overflow_iff: no intermediate wrap; C15_fmt_exact: exact expansion with the fixed number of decimals incl. i64::MIN; C15_parse_fmt(_suffix): parse(format a) = a with and without suffix; C15_precision_table ties everything to the regenerated precision table. Real code vs model vs spec on ~360k (quick) operations.",
     level_note="Trusted: Lean kernel; model/Rust correspondence differential; Rust's u64 Display assumed canonical decimal (validated by the format ops); chars()-vs-bytes argument for valid UTF-8 documented in Model/AmountText.lean. Reading decisions (\".\" = 0, \"-0\" negative for unsigned) in DESIGN.md §8.",
     design_ref="DESIGN.md §6 C15",
     rule="grammar-directed literals (digit counts 0..50, point at every position, magnitudes around 2^63/2^64, 12/13 decimals, signs) + junk stream (other ASCII, multi-byte UTF-8, two dots, inner signs, spaces) x 5 denominations x {unsigned, signed}; formatting on boundary and random values.",
     assumptions=["permissive grammar reading of DESIGN.md §8"],
-    gen_items=["amount.precision", "amount.denom_display", "amount.denom_fromstr"],
+    gen_items=["amount.precision", "amount.denom_display", "amount.denom_fromstr", "amount.parse."],
 )
 
 PROPS["C16"] = dict(
